@@ -24,6 +24,9 @@ RULE = ("scan: generated age distributions over 0-5 mailboxes (incl. emptied one
         "an id-reuse stream removes every expired message still live (or purges) and delivers fresh mail before the first and between "
         "the scanner's removals; a stream parks a delivery between its mailbox lookup and its mailbox lock across the removal "
         "that empties the mailbox (memory store, verifhook mem.wm.lock); "
+        "environment of the file store: the storage path a symbolic link, <path>/mail a symbolic link to a directory elsewhere (made before file.New), "
+        "every first-level hash directory moved elsewhere and replaced by a symbolic link after the mail has arrived — scans undisturbed and with forced "
+        "interference and a slow delivery on each layout, same oracle (every expired message gone, nothing young touched); "
         "large mailboxes (cap 0): 1100 messages in one mailbox with the oldest 30 / the oldest 1050 expired, next to a small control mailbox "
         "(memory store in the quick tier; the file store and a 2200 / 3000 message mailbox in the thorough tier); "
         "after every scan each message ever delivered is asked for by its own id (GetMessage), so what is still in the store does not depend on what a listing shows; "
